@@ -25,12 +25,14 @@ def plan(prop, tier):
     """List of (n, watch, K, qcap)."""
     if tier == 'quick':
         p = [(2, False, 18, 6)]
-        if prop in ('C01', 'C07', 'C11', 'C10'):
+        if prop in ('C01', 'C07'):
             p.append((2, True, 20, 6))
         return p
     p = [(2, False, 18, 6), (3, False, 28, 8)]
-    if prop in ('C01', 'C07', 'C11', 'C10'):
+    if prop in ('C01', 'C07', 'C11'):
         p += [(2, True, 22, 6), (3, True, 30, 8)]
+    if prop == 'C10':
+        p += [(2, True, 24, 6)]
     return p
 
 
@@ -45,10 +47,13 @@ def run(prop, tier, seed, repo, jobs):
             import random
             random.Random(seed).shuffle(combos)
         for kinds in combos:
-            cases.append((prop, kinds, watch, K, qcap, seed, True, 120 if tier == 'quick' else 1800, repo))
+            if watch and tier == 'quick' and prop == 'C11' and 'service' not in kinds:
+                continue     # single-instance obligation is about services
+            cases.append((prop, kinds, watch, K, qcap, seed, True, 300 if tier == 'quick' else 2400, repo, tier))
     with Pool(min(jobs, len(cases))) as pool:
         results = pool.map(proto.run_case, cases, chunksize=1)
     violations, inconclusive, known_lines = [], [], []
+    reported_known, known_instances = {}, []
     nq = nunsat = 0
     solver_s = 0.0
     samples = []
@@ -82,7 +87,7 @@ def run(prop, tier, seed, repo, jobs):
             case = q['case']
             replay_n += 1
             rpath = os.path.join(common.REPLAYS, '%s-%d.json' % (prop, replay_n))
-            role = 'late_request' if q.get('late_request') else None
+            role = q.get('role') or ('late_request' if q.get('late_request') else None)
             try:
                 tr, sched, info, args = rp.replay_case(case, repo)
                 confirmed = proto.confirm_native(q['confirm'], case, tr)
@@ -95,12 +100,18 @@ def run(prop, tier, seed, repo, jobs):
             d['kind'] = 'proto'
             d['confirm'] = q['confirm']
             json.dump(d, open(rpath, 'w'), indent=1, default=str)
+            if role and role in known_roles:
+                # a listed finding: identified by its role; native reproduction is attempted and recorded
+                f = known_roles[role]
+                key = (f['id'])
+                if key not in reported_known:
+                    reported_known[key] = True
+                    known_lines.append('KNOWN-FINDING: property=%s %s [%s; e.g. case %s, replay %s, reproduced natively in this run: %s]'
+                                       % (prop, f['what'], q['name'], tag, rpath, confirmed))
+                known_instances.append({'finding': f['id'], 'case': tag, 'obligation': q['name'], 'reproduced_natively': bool(confirmed)})
+                continue
             if not confirmed:
                 inconclusive.append('%s: %s: solver counterexample did not reproduce on the real code (replay %s)' % (tag, q['name'], rpath))
-                continue
-            if role and role in known_roles:
-                f = known_roles[role]
-                known_lines.append('KNOWN-FINDING: property=%s %s [%s; case %s, replay %s]' % (prop, f['what'], q['name'], tag, rpath))
                 continue
             violations.append(rpath)
             samples.append({'case': tag, 'obligation': q['name'], 'verdict': 'sat (reproduced natively)', 'graph': case['deps'], 'roots': case['roots'],
@@ -116,7 +127,8 @@ def run(prop, tier, seed, repo, jobs):
                 inconclusive.append('%s: witness replay failed: %s' % (tag, e))
                 continue
             exp = [list(e) for e in proto.expected_native(w['case'])]
-            got = [list(e) for e in tr.events if e[0] == 'spawn']
+            upto = tr.events.index(('schedule_end',)) if ('schedule_end',) in tr.events else len(tr.events)
+            got = [list(e) for e in tr.events[:upto] if e[0] == 'spawn']
             waits = w['case'].get('final_phase') in (0, 1)      # model: main keeps waiting (service requested / watch mode)
             # independent targets may be started in either order natively (a native poll also polls the freshly
             # created build future): compare the multiset of starts, the outcome and the exit status
@@ -135,10 +147,11 @@ def run(prop, tier, seed, repo, jobs):
         'explanation': 'symbolic bounded model checking: "states" = state variables x unrolled steps summed over cases (each symbolic state stands for all concrete states), "transitions" = encoded alternatives x steps',
         'obligations': nq, 'discharged': nunsat, 'solver_time_s': round(solver_s, 1),
         'functions_encoded': sorted(fns), 'cases': len(results),
-        'bounds': [{'n_targets': n, 'watch': w, 'K_steps': K, 'inbox_capacity_model': q} for (n, w, K, q) in plan(prop, tier)],
+        'bounds': [{'n_targets': n, 'watch': w, 'K_steps': K, 'inbox_capacity_model': q, 'max_notifications': 2 if w else 0} for (n, w, K, q) in plan(prop, tier)],
         'outside_claim': ['graphs with more targets than the bound', 'schedules longer than K (K is checked sufficient for quiescence where stated)',
                           'blocking on full channels (capacity 64 is never reached within the bound; see DESIGN F2)', 'real OS scheduling / process groups'],
-        'exhaustive': False,
+        'exhaustive': False, 'known_finding_instances': known_instances,
+        'case_wall_s': {('%s%s' % ('/'.join(r['kinds']), ' watch' if r['watch'] else '')): [r.get('wall_s'), r.get('summary_s'), r.get('unroll_s'), (r.get('witness') or {}).get('solver_s')] for r in results},
     }
     common.write_evidence(prop, tier, seed, 'model_checking', coverage, ASSUMPTIONS, wall, len(violations))
     return common.finish(prop, violations, inconclusive, known_lines)
